@@ -66,6 +66,12 @@ class SList(Model):
         it.ctx.oblige("safety/index-in-range", z3.And(k >= 0, k < to_num(self.length)))
         return self.element(k)
 
+    def py_getattr(self, it, name):
+        if name in ('size', 'shape', 'ravel', 'ndim'):
+            # a python list / tuple has none of the ndarray attributes
+            raise PyRaise(ExcVal('AttributeError', ("'list' object has no attribute '%s'" % name,)))
+        raise Unsupported("getattr %s on SList" % name)
+
     def fresh_like(self, it, hint):
         raise Unsupported("havoc of immutable SList %s" % hint)
 
